@@ -153,6 +153,9 @@ def namings(draw, spec):
     for i in live:
         n = spec["nodes"][i]
         if n["op"] in INPUT_OPS:
+            # (an input may carry ImplStored too; it is an output sometimes)
+            if n["op"] == "placeholder" and draw(st.integers(0, 5)) == 0:
+                tags[str(i)] = [["ImplStored"]]
             continue
         k = draw(st.integers(0, 9))
         if k == 0:
